@@ -60,13 +60,23 @@ class Region:
             self.name = header.strip()
 
 
-def parse_contract(path):
-    """Return list of segments: ('text', str) | ('region', Region)."""
+def parse_contract(path, defines=()):
+    """Return list of segments: ('text', str) | ('region', Region).
+    Lines between `//@if NAME` and `//@endif` are kept only if NAME is among the unit part's defines."""
     segs = []
     cur = []
     region = None
+    keep = True
     for ln, line in enumerate(open(path, encoding="utf-8").read().split("\n"), 1):
         s = line.strip()
+        if s.startswith("//@if "):
+            keep = s[6:].strip() in defines
+            continue
+        if s == "//@endif":
+            keep = True
+            continue
+        if not keep:
+            continue
         m = re.match(r"//@(real|struct|lemma)\s+(.*)$", s)
         if m and region is None:
             if cur:
@@ -463,7 +473,7 @@ def build_unit(repo, contracts_dir, unit, out_path, contract_only=()):
             add(open(path, encoding="utf-8").read())
             continue
         only = part.get("only")  # if given: only these regions are emitted at all (plus all text)
-        for kind, seg in parse_contract(path):
+        for kind, seg in parse_contract(path, tuple(part.get("define", []))):
             if kind == "text":
                 add(seg)
                 continue
